@@ -630,6 +630,7 @@ pub struct Exec {
     pub max_time_us: u64,
     prio: Vec<u64>,
     change_points: Vec<u64>,
+    same_instant: u32,
 }
 
 impl Exec {
@@ -641,7 +642,7 @@ impl Exec {
                 change_points.push(rng.below(400));
             }
         }
-        Self { sh, slots: Vec::new(), rng, sched, polls: 0, max_polls, max_time_us, prio: Vec::new(), change_points }
+        Self { sh, slots: Vec::new(), rng, sched, polls: 0, max_polls, max_time_us, prio: Vec::new(), change_points, same_instant: 0 }
     }
 
     fn adopt(&mut self) {
@@ -834,6 +835,7 @@ impl Exec {
                         let mut c = self.sh.core.lock().unwrap();
                         if t > c.now_us {
                             c.now_us = t;
+                            self.same_instant = 0;
                         }
                     }
                 }
@@ -904,6 +906,14 @@ impl Exec {
             let cost = self.sched.poll_cost_us;
             if cost > 0 {
                 self.sh.core.lock().unwrap().now_us += cost;
+            } else {
+                // a frozen clock turns "retry until the clock has moved" (e.g. a pacing delay that rounds to
+                // zero) into an endless spin: after a burst of polls at one instant, let one microsecond pass
+                self.same_instant += 1;
+                if self.same_instant >= 64 {
+                    self.same_instant = 0;
+                    self.sh.core.lock().unwrap().now_us += 1;
+                }
             }
         }
     }
